@@ -56,3 +56,17 @@ Theorem C17_tracks_the_cache : forall c o h rs, forallb pop_ok h = true -> p_rt 
   rt_tracks rs (tget TRc (s_cache (fst (jrun c o h)))).
 Proof. exact retry_tracks_cache. Qed.
 Print Assumptions C17_tracks_the_cache.
+
+(** non-vacuity: two tables; the second update renames B's cluster: cb's policy goes, cb2's comes, A's (with its method key) stay;
+    3 attempts x 2 s per try = 6000 ms, random back-off between 10 and 50 ms *)
+Theorem C17_example :
+  let rt cluster n methods := {| r_match := HttpMatch "" "/" []; r_clusters := [(cluster, 1)]; r_timeout := 0%Z;
+                                 r_retry := {| rp_on := "5xx"; rp_num := n; rp_pertry := 2000000000%Z; rp_idle := 0%Z; rp_cbrate := 0;
+                                               rp_backoff := Some (10000000%Z, 50000000%Z); rp_methods := methods |} |} in
+  let table rs := VRc {| rc_http := Some [("vh", rs)]; rc_thrift := None; rc_maxtok := 0; rc_tpf := 0 |} in
+  let s1 := rt_update rt_init [("A", table [rt "ca" 3 ["m1"]]); ("B", table [rt "cb" 2 []])] in
+  let s2 := rt_update s1 [("A", table [rt "ca" 3 ["m1"]]); ("B", table [rt "cb2" 2 []])] in
+  (map fst (sort_map (rt_pol s1)), map fst (sort_map (rt_pol s2)),
+   option_map (map (fun p => (rq_times p, rq_dur p, rq_bo p))) (aget "ca|m1" (rt_pol s2))) =
+  (["ca"; "ca|m1"; "cb"], ["ca"; "ca|m1"; "cb2"], Some [(3, 6000, (2, 10, 50))]).
+Proof. exact C17_example_proof. Qed.
